@@ -27,8 +27,14 @@ func runC07Cmd(t *testing.T, c simrt.Chooser, o Opts) *Out {
 	if p.pct("nicerr", 40) {
 		w.NicErrEvery = 1 + p.n("errevery", 6)
 	}
+	if p.pct("cancel", 20) {
+		// Ctrl-C while the generators are still producing: whatever reaches the wire until the
+		// command returns is still a frame of this scan, unaltered and at most once
+		w.SigintStep = 1 + p.n("sigstep", 25*sc.Spec.nprobes()+300)
+	}
 	out := &Out{Scenario: sc, Stats: map[string]int{}}
 	cr := runPacketScenario(t, c, o, sc)
+	cancelled := cr.Res.SigFired
 	out.Res = &cr.Res
 	out.Stats["frames"] += len(cr.Wire)
 	out.Nontrivial = len(cr.Wire) >= 2
@@ -48,6 +54,10 @@ func runC07Cmd(t *testing.T, c simrt.Chooser, o Opts) *Out {
 		out.violate("C07.frames", sig+"/undecodable", "%v", firstN(bad, 3))
 	}
 	missing, extra := diffMultiset(got, sc.Spec.expected())
+	if cancelled {
+		simrtProbe(&cr.Res, "cancelled-while-sending")
+		missing = nil
+	}
 	if len(missing)+len(extra) > 0 {
 		out.violate("C07.frames", sig, "argv %v: frames handed to the wire differ from the requests: missing %v extra %v", w.Argv, firstN(missing, 5), firstN(extra, 5))
 	}
@@ -60,6 +70,13 @@ func runC07Cmd(t *testing.T, c simrt.Chooser, o Opts) *Out {
 		if f.Err != nil {
 			nerr++
 		}
+	}
+	if cancelled {
+		// the tail of the error stream may be cut by the cancel; completion is C12's business
+		if len(cr.Errs) > nerr {
+			out.violate("C07.errors", sig+"/cancelled", "argv %v: %d writes failed, %d error records", w.Argv, nerr, len(cr.Errs))
+		}
+		return out
 	}
 	if len(cr.Errs) != nerr {
 		out.violate("C07.errors", sig, "argv %v: %d writes failed, %d error records", w.Argv, nerr, len(cr.Errs))
